@@ -493,3 +493,9 @@ theorem load_defsPerm_equiv {sd sd' : SchemaDoc} (hp : DefsPerm sd sd') {s : Sch
       · exact this.map _
 
 end Gql.Load
+
+namespace Gql.Load
+theorem isOk_iff (r : LoadResult) : r.isOk = true ↔ ∃ s, r = .ok s := by
+  cases r <;> simp [LoadResult.isOk]
+
+end Gql.Load
